@@ -2101,6 +2101,272 @@ def run_pso(ctx, count):
 
 
 # ---------------------------------------------------------------------------
+# leaf stream (round 4): `default_ops.py` classes whose `_call` bodies are model leaves of their
+# own (`zeroDiffLeaf`, `multScalarLeaf`, `imagLeaf`, `cmodLeaf`, `linCombO/I`) or instances of
+# `funcLeaf` (NormOperator, DistOperator, PowerOperator / MultiplyOperator on a FIELD domain),
+# each alone under the public call, bitwise on dyadic inputs.
+
+LEAF_KINDS = ('zerodiff', 'multc', 'imag', 'cmod', 'norm', 'dist', 'powf', 'multf')
+LEAF_FUNCTIONAL = ('norm', 'dist', 'powf', 'multf')
+LEAF_FIELD_DOMAIN = ('powf', 'multf')
+LEAF_MODES = {'zerodiff': ('oop', 'ip'), 'multc': ('oop', 'ip', 'alias'),
+              'imag': ('oop', 'ip', 'alias'), 'cmod': ('oop', 'ip', 'alias'),
+              'norm': ('oop', 'ip'), 'dist': ('oop', 'ip'), 'powf': ('oop', 'ip'),
+              'multf': ('oop', 'ip')}
+LINCOMB_MODES = ('oop', 'ip', 'alias0', 'alias1')
+
+
+def real_leaf(case):
+    """The real operator of a recorded leaf case."""
+    import odl
+    k, n, m, c = case['leaf'], case['n'], case['m'], case['c']
+    X = odl.rn(n)
+    if k == 'zerodiff':
+        return odl.ZeroOperator(X, odl.rn(m))
+    if k == 'multc':
+        return odl.MultiplyOperator(c, domain=X, range=X)
+    if k == 'imag':
+        return odl.ImagPart(X)
+    if k == 'cmod':
+        return odl.ComplexModulus(X)
+    if k == 'norm':
+        return odl.NormOperator(X)
+    if k == 'dist':
+        return odl.DistOperator(X.element(np.array(case['v'], dtype=float)))
+    if k == 'powf':
+        return odl.PowerOperator(odl.RealNumbers(), c)
+    if k == 'multf':
+        return odl.MultiplyOperator(c, domain=odl.RealNumbers(), range=odl.RealNumbers())
+    if k == 'lincomb':
+        return odl.LinCombOperator(X, case['a'], case['b'])
+    raise KeyError(k)
+
+
+def eval_leaf(ctx, case, lines, pend):
+    """One recorded leaf case on the real code: oracle (C03 itself, no model involved), and the
+    model lines queued."""
+    import odl
+    k, n, m = case['leaf'], case['n'], case['m']
+    key = 'leaf {} n={} m={}'.format(k, n, m)
+    try:
+        op = real_leaf(case)
+    except Exception as e:  # noqa
+        ctx.disagree(case, 'cannot build: {}: {}'.format(type(e).__name__, str(e)[:100]),
+                     'model leaf exists', stream='leaf')
+        return
+    if k == 'lincomb':
+        return eval_lincomb(ctx, case, op, key, lines, pend)
+    xv = np.array(case['x'], dtype=float)
+    yv = np.array(case['y'], dtype=float)
+    fdom = k in LEAF_FIELD_DOMAIN
+    func = k in LEAF_FUNCTIONAL
+
+    def mkx():
+        return float(xv[0]) if fdom else op.domain.element(xv.copy())
+    res, xa, new = {}, {}, {}
+    x = mkx()
+    res['oop'] = safe_call(op, x)
+    xa['oop'] = snapshot(x)
+    new['oop'] = int(res['oop'].obj is not x)
+    if res['oop'].status != 'ok':
+        ctx.violation(key + ' check=raises-on-valid-input', 'op(x) raises ' + res['oop'].status, case)
+    else:
+        r = res['oop'].obj
+        try:
+            inrange = r in op.range
+        except Exception:  # noqa
+            inrange = False
+        if not inrange:
+            ctx.violation(key + ' check=result-in-range', 'op(x) = {!r} is not in the range'.format(r)[:200],
+                          case)
+        if not bitsame(xa['oop'], xv):
+            ctx.violation(key + ' check=input-unchanged-oop', 'x modified by op(x)', case)
+        if not func and not fdom and shares(arrays_of(r), arrays_of(x)):
+            ctx.violation(key + ' check=result-shares-input', 'op(x) shares memory with x', case)
+    for mode in LEAF_MODES[k][1:]:
+        x = mkx()
+        if func:
+            y = float(yv[0])            # in the range (a field): must be refused with TypeError
+        elif mode == 'alias':
+            y = x
+        else:
+            y = op.range.element(yv.copy())
+        res[mode] = safe_call(op, x, out=y)
+        xa[mode] = snapshot(x)
+        new[mode] = 0
+        if func:
+            if not res[mode].status.startswith('err:type'):
+                ctx.violation(key + ' check=functional-rejects-out',
+                              'op(x, out=<float>) gives {} instead of TypeError'.format(
+                                  res[mode].status), case)
+            continue
+        if res[mode].status != 'ok':
+            ctx.violation(key + ' check=' + mode, '{} call raises {}'.format(mode, res[mode].status),
+                          case)
+            continue
+        if res[mode].obj is not y:
+            ctx.violation(key + ' check=returns-out', mode + ' call did not return out', case)
+        if res['oop'].status == 'ok' and not bitsame(res[mode].val, res['oop'].val):
+            ctx.violation(key + ' check={}-equals-oop prefill={}'.format(mode, case['prefill']),
+                          '{} result {} differs from op(x) = {}'.format(
+                              mode, res[mode].val[:6], res['oop'].val[:6]), case)
+        if mode == 'ip' and not bitsame(xa['ip'], xv):
+            ctx.violation(key + ' check=input-unchanged-ip', 'x modified by op(x, out=y)', case)
+    if lines is None:
+        return
+    base = 'kind={} n={} m={} x={} y={} c={} v={}'.format(
+        k, n, m, bl(xv), bl(yv), bits(case['c']), bl(case['v']))
+    for mode in LEAF_MODES[k]:
+        lines.append('leaf mode={} {}'.format(mode, base))
+        pend.append((case, mode, res[mode], xa[mode], new[mode]))
+
+
+def eval_lincomb(ctx, case, op, key, lines, pend):
+    n = case['n']
+    x0 = np.array(case['x'][:n], dtype=float)
+    x1 = np.array(case['x'][n:], dtype=float)
+    yv = np.array(case['y'], dtype=float)
+    res, xa = {}, {}
+    for mode in LINCOMB_MODES:
+        x = op.domain.element([x0.copy(), x1.copy()])
+        if mode == 'oop':
+            res[mode] = safe_call(op, x)
+            y = None
+        else:
+            y = {'ip': op.range.element(yv.copy()), 'alias0': x[0], 'alias1': x[1]}[mode]
+            res[mode] = safe_call(op, x, out=y)
+        xa[mode] = snapshot(x)
+        if res[mode].status != 'ok':
+            ctx.violation(key + ' check=' + ('raises-on-valid-input' if mode == 'oop' else mode),
+                          '{} call raises {}'.format(mode, res[mode].status), case)
+            continue
+        if mode == 'oop':
+            if res[mode].obj not in op.range:
+                ctx.violation(key + ' check=result-in-range', 'op(x) not in the range', case)
+            if shares(arrays_of(res[mode].obj), arrays_of(x)):
+                ctx.violation(key + ' check=result-shares-input', 'op(x) shares memory with x', case)
+        else:
+            if res[mode].obj is not y:
+                ctx.violation(key + ' check=returns-out', mode + ' call did not return out', case)
+            if res['oop'].status == 'ok' and not bitsame(res[mode].val, res['oop'].val):
+                ctx.violation(key + ' check={}-equals-oop prefill={}'.format(mode, case['prefill']),
+                              '{} result {} differs from op(x) = {}'.format(
+                                  mode, res[mode].val[:6], res['oop'].val[:6]), case)
+        # components that are not `out` are bit for bit unchanged
+        keep = {'oop': (0, 1), 'ip': (0, 1), 'alias0': (1,), 'alias1': (0,)}[mode]
+        for j in keep:
+            if not bitsame(xa[mode][j * n:(j + 1) * n], (x0, x1)[j]):
+                ctx.violation(key + ' check=input-unchanged-' + mode,
+                              'x[{}] modified by the {} call'.format(j, mode), case)
+    if lines is None:
+        return
+    base = 'n={} a={} b={} x0={} x1={} y={}'.format(n, bits(case['a']), bits(case['b']), bl(x0),
+                                                   bl(x1), bl(yv))
+    for mode in LINCOMB_MODES:
+        lines.append('lincomb mode={} {}'.format(mode, base))
+        pend.append((case, mode, res[mode], xa[mode], int(mode == 'oop')))
+
+
+def leaf_cases(ctx, count):
+    """A fixed enumeration (every kind x size x constant x prefill; independent of VERIF_SEED),
+    then `count` seeded cases."""
+    import random
+    fixed = random.Random(20260928)
+    out = []
+
+    def prefill(pre, m, i=0):
+        return [{'garbage': 777.25 + i + t, 'nan': float('nan'), 'inf': float('inf')}[pre]
+                for t in range(m)]
+
+    def one(rng, k, n, m, c, pre):
+        xs = [rng.randint(-16, 16) / 8.0 for _ in range(n)]
+        v = [rng.randint(-8, 8) / 4.0 for _ in range(n)] if k == 'dist' else []
+        return {'kind': 'leaf', 'leaf': k, 'n': n, 'm': m, 'c': c, 'v': v, 'x': xs,
+                'y': prefill(pre, m), 'prefill': pre}
+
+    def lin(rng, n, a, b, pre):
+        return {'kind': 'leaf', 'leaf': 'lincomb', 'n': n, 'm': n, 'c': 0.0, 'v': [], 'a': a, 'b': b,
+                'x': [rng.randint(-16, 16) / 8.0 for _ in range(2 * n)], 'y': prefill(pre, n),
+                'prefill': pre}
+    consts = {'multc': (2.0, -0.5, 0.0, 1.0), 'powf': (2.0, 3.0), 'multf': (2.0, -0.5, 0.0)}
+    for pre in ('garbage', 'nan', 'inf'):
+        for k in LEAF_KINDS:
+            for n in ((1,) if k in LEAF_FIELD_DOMAIN else (1, 2, 3, 4)):
+                ms = [t for t in (1, 2, 3, 5) if t != n] if k == 'zerodiff' else \
+                    [1] if k in LEAF_FUNCTIONAL else [n]
+                for m in ms:
+                    for c in consts.get(k, (0.0,)):
+                        out.append(one(fixed, k, n, m, c, pre))
+        for n in (1, 2, 3):
+            for a, b in ((2.0, 3.0), (1.0, -1.0), (0.0, 0.5), (0.0, 0.0), (-0.25, 1.0)):
+                out.append(lin(fixed, n, a, b, pre))
+    rng = ctx.rng
+    for _ in range(count):
+        pre = rng.choice(['garbage', 'nan', 'inf'])
+        k = rng.choice(LEAF_KINDS + ('lincomb', 'lincomb'))
+        if k == 'lincomb':
+            out.append(lin(rng, rng.choice([1, 2, 3, 4, 5]), rng.choice([2.0, -1.0, 0.5, 0.0, 1.0]),
+                           rng.choice([3.0, -0.5, 0.0, 1.0]), pre))
+            continue
+        n = 1 if k in LEAF_FIELD_DOMAIN else rng.choice([1, 2, 3, 4, 5, 6])
+        m = rng.choice([t for t in range(1, 8) if t != n]) if k == 'zerodiff' else \
+            1 if k in LEAF_FUNCTIONAL else n
+        c = rng.choice(consts.get(k, (0.0,)))
+        out.append(one(rng, k, n, m, c, pre))
+    return out
+
+
+def run_leaves(ctx, count):
+    lines, pend = [], []
+    for case in leaf_cases(ctx, count):
+        eval_leaf(ctx, case, lines, pend)
+    outs = core.run_driver('C03', lines)
+    for (desc, mode, r, xafter, isnew), ans in zip(pend, outs):
+        d = dict(desc, mode=mode)
+        k = desc['leaf']
+        ctx.case(('leaf', k, mode, desc['n'], desc['m'], desc['c'], desc.get('a'), desc.get('b'))
+                 if r.status == 'ok' else None,
+                 sample={'leaf': k, 'mode': mode, 'x': desc['x'], 'c': desc['c'],
+                         'result': r.val.tolist() if r.status == 'ok' else r.status}
+                 if desc['n'] <= 2 and mode != 'oop' and len(ctx.samples) < 12 else None)
+        ctx.hit('leaf/{}/{}'.format(k, mode))
+        if r.status != 'ok':
+            if not ans.startswith(':'.join(r.status.split(':')[:2])):
+                ctx.disagree(d, r.status, ans[:100], stream='leaf')
+            continue
+        if not ans.startswith('ok '):
+            ctx.disagree(d, 'ok', ans[:100], stream='leaf')
+            continue
+        f = dict(t.split('=', 1) for t in ans.split()[1:])
+        if not bitsame(parse_bl(f['val']), np.asarray(r.val, dtype=float)):
+            ctx.disagree(d, 'val={}'.format(r.val[:6]), 'val={}'.format(parse_bl(f['val'])[:6]),
+                         stream='leaf')
+            continue
+        if k == 'lincomb':
+            n = desc['n']
+            mx = np.concatenate([parse_bl(f['x0']), parse_bl(f['x1'])])
+            if not bitsame(mx, xafter):
+                ctx.disagree(d, 'x after={}'.format(xafter[:8]), 'x after={}'.format(mx[:8]),
+                             stream='leaf')
+            if (int(f['ret']) >= 3) != bool(isnew):
+                ctx.disagree(d, 'result is a new object: {}'.format(bool(isnew)), 'ret=' + f['ret'],
+                             stream='leaf')
+            continue
+        if k not in LEAF_FIELD_DOMAIN and not bitsame(parse_bl(f['x']), xafter):
+            ctx.disagree(d, 'x after={}'.format(xafter[:6]), 'x after={}'.format(parse_bl(f['x'])[:6]),
+                         stream='leaf')
+        if mode == 'oop' and k not in LEAF_FUNCTIONAL and int(f['new']) != isnew:
+            ctx.disagree(d, 'result is a new object: {}'.format(bool(isnew)), 'new=' + f['new'],
+                         stream='leaf')
+        if mode != 'oop' and int(f['isout']) != 1:
+            ctx.disagree(d, 'returns out', ans[:60], stream='leaf')
+
+
+LEAF_BRANCHES = ['leaf/{}/{}'.format(k, m) for k in LEAF_KINDS for m in LEAF_MODES[k]] + \
+    ['leaf/lincomb/' + m for m in LINCOMB_MODES]
+
+
+# ---------------------------------------------------------------------------
 # layout / size stream (oracle only, tolerance-free): the default in-place paths go through
 # lincomb / assign / multiply of the space layer, whose BLAS branch depends on memory layout
 # and size. op(x, out=y) with y (and / or x) Fortran-ordered or wrapping a strided view, and on
@@ -2546,7 +2812,8 @@ EXPECTED_BRANCHES = (
     ['wrapper-stratum/{}/{}'.format(w, l) for w in STRATA_SHARED for l in STRATA_LINEAR_LEAVES] +
     ['argform/{}/{}'.format(c, o) for c, o, _, _ in argform_instances()] +
     ['layout/out-F', 'layout/out-strided', 'layout/x-F', 'size/large-2d', 'ownership/result'] +
-    ['ownership/result/' + c for c in MODELLED if c != 'InnerProductOperator'])
+    ['ownership/result/' + c for c in MODELLED if c != 'InnerProductOperator'] +
+    LEAF_BRANCHES)
 
 
 def report_unhit(ctx):
@@ -2610,6 +2877,7 @@ def _run(ctx):
     run_dispatch(ctx)
     run_trees(ctx, 150 if ctx.quick else 2000)
     run_pso(ctx, 120 if ctx.quick else 1200)
+    run_leaves(ctx, 60 if ctx.quick else 1500)
     run_wrapper_strata(ctx, 1 if ctx.quick else 4)
     run_layouts(ctx)
     run_argforms(ctx)        # (not deep: the spellings differ in construction, not in inputs)
@@ -2624,6 +2892,7 @@ def search(ctx, broken):
     run_zoo(ctx, deep=True)
     run_trees(ctx, 1500)
     run_pso(ctx, 1000)
+    run_leaves(ctx, 3000)
     run_wrapper_strata(ctx, 10)
 
 
@@ -2674,6 +2943,10 @@ def replay(ctx, case):
     if case.get('kind') == 'pso':
         sub = Ctx2()
         eval_pso(sub, case, None, None)
+        return sub.violations[0]['what'] if sub.violations else None
+    if case.get('kind') == 'leaf':
+        sub = Ctx2()
+        eval_leaf(sub, case, None, None)
         return sub.violations[0]['what'] if sub.violations else None
     if case.get('kind') == 'tree':
         sub = Ctx2()
